@@ -18,11 +18,13 @@
 //	})
 //	defer srv.Close()                                 // closes listener + backends, removes /tmp/w-e2e-<pid>/<n>
 //	srv.Mod.SetScript(e2e.Script{bfe_module.HandleForward: {e2e.GoOn, e2e.Finish}})   // verdict of handler k at a point
-//	c := srv.Dial()                                   // raw client
+//	c := srv.Dial()                                   // raw client (srv.DialTLS("example.org") with Options.HTTPS)
 //	c.Send([]byte("GET / HTTP/1.1\r\nHost: example.org\r\nX-Verif-Id: r1\r\n\r\n"))
-//	r, err := c.ReadResponse()                        // one framed HTTP/1 response: r.Status, r.Header, r.Body, r.Raw
+//	r, err := c.ReadResponse()                        // one framed HTTP/1 response: r.Status, r.Header, r.Body, r.Close
 //	rest, closed := c.ReadUntilClose()                // blocks until the server closes (deadline Options.Deadline)
-//	srv.Mod.Calls()                                   // call log of verifmod: [{Point, Idx, ReqID, Backend, Verdict}]
+//	srv.Mod.SetScriptFor("k", script)                 // script for requests carrying "X-Verif-Script: k"
+//	srv.Mod.SetAttemptScript("r1", bfe_module.HandleForward, []e2e.Verdict{e2e.GoOn, e2e.Finish})  // per retry attempt of request r1
+//	srv.Mod.Calls()                                   // call log of verifmod: [{Point, Idx, ReqID, Backend, Ret}]; ResetCalls()
 //	b1.Conns()                                        // per-connection byte logs: [{Seq, Bytes, ...}]
 //	plan := e2e.NewPlan(); b1.Plan = plan; b2.Plan = plan; plan.PushFor("r1", e2e.ReadHeadClose(), e2e.Reply(e2e.OK("x")))
 //	                                                  // per-request (X-Verif-Id) attempt outcomes, whichever backend is picked;
@@ -50,6 +52,7 @@ package e2e
 import (
 	"bufio"
 	"bytes"
+	"crypto/tls"
 	"encoding/json"
 	"fmt"
 	"io"
@@ -1166,6 +1169,15 @@ type Client struct {
 func (s *Server) Dial() *Client {
 	c, err := net.DialTimeout("tcp", s.Addr, s.Deadline)
 	must(err, "dial server")
+	return &Client{C: c, br: bufio.NewReader(c), deadline: s.Deadline}
+}
+
+// DialTLS connects to the HTTPS listener (Options.HTTPS) with Go's TLS client (TLS 1.2, no ALPN, certificate not
+// verified); the handshake runs at the first Send / read.
+func (s *Server) DialTLS(serverName string) *Client {
+	raw, err := net.DialTimeout("tcp", s.TLSAddr, s.Deadline)
+	must(err, "dial tls listener")
+	c := tls.Client(raw, &tls.Config{InsecureSkipVerify: true, ServerName: serverName, MaxVersion: tls.VersionTLS12})
 	return &Client{C: c, br: bufio.NewReader(c), deadline: s.Deadline}
 }
 
